@@ -81,6 +81,9 @@ func (caller reqInitCaller) Call(s *slip.Scope, args slip.List, depth int) slip.
 	}
 	req := http.Request{}
 	obj.Any = &req
+	if len(args)%2 != 0 {
+		slip.ErrorPanic(s, depth, "extra arguments that are not keyword and value pairs")
+	}
 	for i := 0; i < len(args); i += 2 {
 		key, _ := args[i].(slip.Symbol)
 		k := string(key)
